@@ -682,6 +682,10 @@ func (s *State) spawn(fn Value, args []Value) {
 }
 
 func (s *State) threadExit(th *Thread) {
+	if len(th.locks) > 0 && !th.leakReported {
+		th.leakReported = true
+		s.report("lock-leak", fmt.Sprintf("a thread exits while still holding %d lock(s): every later acquisition blocks forever", len(th.locks)), s.currentModel(), "sat")
+	}
 	s.rescheduleEx(th) // forks happen here, before the exit is applied
 	if s.dead {
 		return
